@@ -52,7 +52,8 @@ fn needs_prediction(pic: &Pic) -> bool {
 pub fn history_case(g: &mut Gen, cfg: &PicCfg) -> Verdict {
     let (mode, version) = gen_mode(g, cfg);
     let size = gen_size(g, mode, cfg);
-    let mut st = H263State::new(options(mode, false));
+    let scal = g.bool();
+    let mut st = H263State::new(options_scal(mode, scal));
     let mut labels: Labels = Vec::new();
     let mut desc = Vec::new();
 
@@ -203,7 +204,7 @@ fn types_x_patterns_suite() -> SuiteReport {
         for (mode, version) in [(Mode::Sorenson, 0u8), (Mode::Sorenson, 1), (Mode::Standard, 0)] {
             let size = if mode == Mode::Sorenson { Size::Custom8(128, 128) } else { Size::Cif };
             let refpic = super::c12::entropy_reference(mode, version, size, 3);
-            let mut st = H263State::new(options(mode, false));
+            let mut st = H263State::new(options_scal(mode, version == 1));
             match decode_bytes(&mut st, &encode_pic(&refpic)) {
                 Outcome::Ok => {}
                 o => {
